@@ -151,14 +151,14 @@ prop("C01", harness="C01",
      assumptions=["operations are executed one at a time (concurrency is C09)"],
 )
 prop("C07", harness="C07",
-     coq=_TRIE_COQ + ["props/C07.v"],
+     coq=_TRIE_COQ + ["proofs/TrieRetained.v", "props/C07.v"],
      n={"quick": 600, "thorough": 15000, "search": 2500},
      shrink_fields=["ops"],
      rule=_TRIE_RULE,
-     level_text="Theorems (coq/props/C07.v): at most one retained message per topic node; setting or clearing a retained message never adds, removes or alters ANY subscription at any depth and keeps the tree well-formed "
-                "(C07_retain_preserves_all_subs, for every well-formed tree, hence after every history by C01_tree_is_abstract_map). "
-                "Partial: that the filter-driven retained walk returns exactly the unexpired retained messages whose topics match is not proved; it is checked on every generated history against both providers and "
-                "against the specification spec_retained (last non-empty retained publish per topic, matched with Match.v). RETAIN=1 flagging of what is sent on subscribe is C08's.",
+     level_text="Theorems (coq/props/C07.v), all over EVERY history: the retained pairs of the tree are exactly the specification's store (per topic the most recent retained publish with non-empty payload; an empty payload removes it; "
+                "one entry per topic at most) - C07_store_after_history; for every filter with '#' only as last level the retained walk of both providers returns exactly the unexpired stored messages whose topics match the filter under Match.v "
+                "('+', trailing '#', '$' topics only by the same literal first level, '#' alone not an empty first level) - C07_retained_walk_full; setting or clearing a retained message never adds, removes or alters any subscription at any depth - "
+                "C07_retain_preserves_all_subs. Not theorems: Retain Handling (send always / if new / never) is compared by the correspondence check; RETAIN=1 on what is sent is C08's; expiry enters as a flag on the stored message.",
      level_note="Trusted: as C01; message expiry enters as a boolean (already expired or not).",
      trusted_base=["sync.Map / Go map semantics as association lists"],
      assumptions=["expiry is modelled as a flag fixed at retain time"],
